@@ -35,10 +35,12 @@ struct netbuf_read {
 	size_t buflen;			/* Length of buf. */
 	size_t bufpos;			/* Position of read pointer in buf. */
 	size_t datalen;			/* Position of write pointer in buf. */
+	size_t waitlen;			/* Bytes wanted by current _wait. */
 };
 
 static int callback_success(void *);
 static int callback_read(void *, ssize_t);
+static int startread(struct netbuf_read *);
 
 /**
  * netbuf_read_init(s):
@@ -176,19 +178,40 @@ netbuf_read_wait(struct netbuf_read * R, size_t len,
 	}
 
 	/* Read data into the buffer. */
+	R->waitlen = len;
+	if (startread(R))
+		goto err0;
+
+done:
+	/* Success! */
+	return (0);
+
+err0:
+	/* Failure! */
+	return (-1);
+}
+
+/* Start reading more data into the buffer. */
+static int
+startread(struct netbuf_read * R)
+{
+
+	/*
+	 * Ask for at least one byte: Everything which has been read from the
+	 * socket is recorded in datalen as soon as it arrives, so that no
+	 * data is lost if the wait is cancelled part-way through.
+	 */
 	if (R->ssl) {
 		if ((R->read_cookie = (netbuf_read_ssl_func)(R->ssl,
 		    &R->buf[R->datalen], R->buflen - R->datalen,
-		    R->bufpos + len - R->datalen, callback_read, R)) == NULL)
+		    1, callback_read, R)) == NULL)
 			goto err0;
 	} else {
 		if ((R->read_cookie = network_read(R->s, &R->buf[R->datalen],
-		    R->buflen - R->datalen, R->bufpos + len - R->datalen,
-		    callback_read, R)) == NULL)
+		    R->buflen - R->datalen, 1, callback_read, R)) == NULL)
 			goto err0;
 	}
 
-done:
 	/* Success! */
 	return (0);
 
@@ -235,6 +258,13 @@ callback_read(void * cookie, ssize_t lenread)
 
 	/* We've got more data. */
 	R->datalen += (size_t)lenread;
+
+	/* If we don't have enough data yet, keep on reading. */
+	if (R->datalen - R->bufpos < R->waitlen) {
+		if (startread(R))
+			goto failed;
+		return (0);
+	}
 
 	/* Perform callback. */
 	return ((R->callback)(R->cookie, 0));
